@@ -53,16 +53,27 @@ let block_of threads = function
   | x -> failwith ("c20: bad block " ^ S.to_string x)
 
 let run (input : S.t) (observed : S.t) : S.t * string =
-  let threads, sched =
+  let threads, sched, share =
     match input with
-    | S.L [S.A "conc"; S.L (S.A "threads" :: ts); S.L (S.A "sched" :: sc)] ->
-      (List.map thread_of ts, List.map (fun x -> nat_of_int (S.int x)) sc)
+    | S.L (S.A "conc" :: S.L (S.A "threads" :: ts) :: S.L (S.A "sched" :: sc) :: rest) ->
+      (List.map thread_of ts, List.map (fun x -> nat_of_int (S.int x)) sc, rest <> [])
     | _ -> failwith "c20: input" in
+  (* (share): the subscribers of one pattern are one Go value whose clean-up is logged under the pattern
+     (1000+pattern+1, see c19.ml); the model's clean-ups are renamed the same way *)
+  let pat_of u =
+    List.fold_left (fun acc t -> match t with
+        | TSub news -> List.fold_left (fun acc s -> if s.uid = u then (match s.pat with None -> -1 | Some p -> int_of_nat p) else acc) acc news
+        | _ -> acc) 0 threads in
+  let lead u = if share then nat_of_int (1000 + pat_of u + 1) else u in
+  let rename (i, b) = match b with
+    | BUnsub (id, c, cl) -> (i, BUnsub (id, c, List.map lead cl))
+    | BPub2 cl -> (i, BPub2 (List.map lead cl))
+    | _ -> (i, b) in
   let expected =
     match Model.exec sched [] threads with
     | None -> S.L [S.A "panic"]
     | Some ((_, ts'), bs) ->
-      S.L [S.L (List.map sexp_of_block bs); S.A (if Model.all_done ts' then "alldone" else "unfinished")] in
+      S.L [S.L (List.map (fun b -> sexp_of_block (rename b)) bs); S.A (if Model.all_done ts' then "alldone" else "unfinished")] in
   let verdict =
     match observed with
     | S.L [S.A "panic"] -> "fails:panic"
@@ -71,6 +82,32 @@ let run (input : S.t) (observed : S.t) : S.t * string =
       (try
          let bs = List.map (block_of threads) obs in
          if fin <> "alldone" then "fails:calls-did-not-finish"
+         else if share then begin
+           (* the clean-ups carry the connection's name, not the subscription's: the oracles over
+              subscription names do not apply. What can be told without them: a subscription that never
+              fails, whose request returned and that no Unsubscribe has matched since, receives every
+              matching event that is published *)
+           let matches pat id = (match pat with None -> true | Some p -> p = id) in
+           let arr = Array.of_list bs in
+           let missed = ref false in
+           Array.iteri (fun k (_, b) ->
+               match b with
+               | BPub1 (id, _, dl) ->
+                 Array.iteri (fun j (_, bj) ->
+                     match bj with
+                     | BSub news when j < k ->
+                       List.iter (fun s ->
+                           if not (List.mem true s.sched) && matches s.pat id then begin
+                             let removed = ref false in
+                             for x = j + 1 to k - 1 do
+                               (match snd arr.(x) with BUnsub (id', _, _) when matches s.pat id' -> removed := true | _ -> ())
+                             done;
+                             if not !removed && not (List.exists (fun ((u, _), _) -> u = s.uid) dl) then missed := true
+                           end) news
+                     | _ -> ()) arr
+               | _ -> ()) arr;
+           if !missed then "fails:live-matching-subscriber-missed" else "holds"
+         end
          else if not (Model.once_okb bs) then "fails:delivered-more-than-once-or-wrong-count"
          else if not (Model.trace_okb [] (Model.strace bs)) then "fails:delivery-or-cleanup-after-cleanup"
          else if not (Model.visible_okb [] bs) then "fails:live-matching-subscriber-missed"
